@@ -3,6 +3,7 @@ import Pyunicorn.Model.Similarity
 import Pyunicorn.Model.SimilarityHilbert
 import Pyunicorn.Model.SimilarityScript
 import Pyunicorn.Model.SimilarityNumeric
+import Pyunicorn.Model.SimilarityCoupled
 /-! Line-protocol driver for C09.
 
 Requests (`S`, `damp` row-major rational matrices):
@@ -21,6 +22,9 @@ Requests (`S`, `damp` row-major rational matrices):
 * `xhist …` (round 4): the request of `hist` run through the NaN / float32 model `XNet` with
   `fl = rn24`; matrix entries and `T:` thresholds may be `nan`; reported thresholds may be `nan`
 * `rn24 <x>` → `x` rounded to binary32;  `xadj <N> <W> <θ>` → `thresholdAdjacencyX` (entries / θ may be `nan`)
+* `coupled <N1> <N2> <directed> <S0> <init> <op,…>` → per state (constructor included)
+  `cross_layer_adjacency|adjacency_1|adjacency_2|number_cross_layer_links|cross_link_density|`
+  `number_internal_links|internal_link_density` (the two link-count observables `na` when directed)
 * `ldf <N> <S> <edges> <n>` → `link_density_function(n)` as counts `k₀,k₁,…` over `N²`
 -/
 open Pyunicorn Pyunicorn.Proto Pyunicorn.Similarity
@@ -176,8 +180,38 @@ def xtrace (s : XNet) : List XOp → List String
     | some s' =>
       if s'.density.isNone then ["raise:ZeroDivision"] else showXState s' :: xtrace s' os
 
+def showOpt (x : Option Rat) : String := match x with
+  | some r => showRat r
+  | none => "raise:ZeroDivision"
+
+def showCoupled (N1 N2 : Nat) (s : Net) : String :=
+  let nc := if s.directed then "na" else toString (numberCrossLayerLinks N1 N2 s)
+  let cd := if s.directed then "na" else showOpt (crossLinkDensityC N1 N2 s)
+  let ni := numberInternalLinksC N1 N2 s
+  let di := internalLinkDensityC N1 N2 s
+  -- the method computes both densities before returning: it raises as soon as one layer has < 2 nodes
+  let dis := match di with
+    | (some a, some b) => s!"{showRat a},{showRat b}"
+    | _ => "raise:ZeroDivision"
+  s!"{showNatMat (crossLayerAdjacency N1 N2 s)}|{showNatMat (adjacency1 N1 s)}|{showNatMat (adjacency2 N1 N2 s)}|{nc}|{cd}|{ni.1},{ni.2}|{dis}"
+
+def ctrace (N1 N2 : Nat) (s : Net) : List Op → List String
+  | [] => []
+  | o :: os =>
+    match s.step o with
+    | none => ["raise:IndexError"]
+    | some s' =>
+      if s'.density.isNone then ["raise:ZeroDivision"] else showCoupled N1 N2 s' :: ctrace N1 N2 s' os
+
 def answer (toks : List String) : String :=
   match toks with
+  | ["coupled", n1, n2, d, s0, init, ops] =>
+    let N1 := n1.toNat!
+    let N2 := n2.toNat!
+    let b := blank (N1 + N2) (d != "0") (matFn (ratMat s0)) (fun _ _ => 1) false
+    match ((splitTok init ",") ++ (splitTok ops ",")).mapM (parseOp (N1 + N2) []) with
+    | none => "bad-request"
+    | some os => join (ctrace N1 N2 b os) ";"
   | "xhist" :: n :: d :: nl :: s0 :: dm :: init :: ops :: rest =>
     let N := n.toNat!
     let mats := match rest with
